@@ -96,7 +96,7 @@ Section GetTree.
     let init := node_init sl k tag extra true m j JNull in
     let extra' := extra ++ down_extra E tag in
     (* ReduceNode.__init__ given the constructor's qualified name *)
-    let reduce_node (cmod ccls : pstr) :=
+    let reduce_node (cmod ccls : json) :=
       do (h, m0) <- init;
       do red <- jindex j (K "__reduce__");
       do c <- jindex j (K "content");
@@ -105,7 +105,7 @@ Section GetTree.
       do (args, m2) <- rec extra' (SOne (K "args")) m1 a;
       let ctor := Node {| h_slot := SOne (K "constructor"); h_kind := KType;
                           h_tag := K "_general.TypeNode"; h_id := None; h_extra := extra';
-                          h_class := JStr ccls; h_module := JStr cmod; h_aux := JNull |} [] in
+                          h_class := ccls; h_module := cmod; h_aux := JNull |} [] in
       Ok (Node h [attrs; args; ctor], m2) in
     match k with
     | KDict =>
@@ -225,13 +225,12 @@ Section GetTree.
         do f <- jindex j (K "file");
         do _ <- read_member E f;
         Ok (Node h [Leaf (SOne (K "content")) LBytes], m0)
-    | KTree => reduce_node (K "sklearn.tree._tree") (K "Tree")
+    | KTree => reduce_node (JStr (K "sklearn.tree._tree")) (JStr (K "Tree"))
     | KLoss =>
-        (* the constructor is resolved while the tree is being built *)
+        (* the constructor is named by the state and only resolved in _construct *)
         do mm <- jindex j (K "__module__");
         do cc <- jindex j (K "__class__");
-        do (rm, rc) <- gettype E mm cc;
-        reduce_node rm rc
+        reduce_node mm cc
     | KQuantileForest =>
         if mem tag (e_unavailable E) then Raise EImport else Raise EDomain
     | KCached =>
